@@ -8,6 +8,9 @@ from pjplan import Task, WBS, IResource, Resource
 from pjplan.utils import TextTable, GREEN, YELLOW, GREY, RED
 
 
+_EPSILON = 1e-9
+
+
 def _validate_graph_isolation(project: WBS):
     all_tasks = {id(task): task for task in project.tasks}
 
@@ -191,7 +194,8 @@ class ForwardScheduler(IScheduler):
                 else resource_usage.reserved(resource, d, task)
 
             available = resource.get_available_units(d, task) - reserved
-            if available > 0:
+            # float sums of fractional estimates leave residues like 8.9e-16: such a day is full
+            if available > _EPSILON:
                 percent = 1 - available / resource.get_available_units(d, task)
                 d = datetime(d.year, d.month, d.day, 0, 0, 0, 0) + timedelta(hours=24 * percent)
                 return d
@@ -378,7 +382,8 @@ class BackwardScheduler(IScheduler):
                 else resource_usage.reserved(resource, d, task)
 
             available = resource.get_available_units(d, task) - reserved
-            if available > 0:
+            # float sums of fractional estimates leave residues like 8.9e-16: such a day is full
+            if available > _EPSILON:
                 percent = 1 - available / resource.get_available_units(d, task)
                 d = datetime(d.year, d.month, d.day, 0, 0, 0, 0) - timedelta(hours=24 * percent)
                 return d
